@@ -13,10 +13,10 @@ func init() {
 	register(&propertyDef{
 		id:    "C12",
 		title: "a step reports a consistent life story under every interleaving",
-		rules: []ruleFunc{c12Traces, c12R5, c12R6, c12R7, c12R8, c12R10},
+		rules: []ruleFunc{c12Traces, c12R5, c12R6, c12R7, c12R8, c12R10, c12R14},
 		decided: "typestate rules over ALL notification sequences the step goroutine's code can emit (path exploration of the loop-free run() call tree, every select case and unknown flag forked): declared stages in dependency order (R1), declared outputs (R2), " +
 			"no stage finished twice or both finished and failed (R3), exactly one completion preceded by state=finished (R4), every And-successor of a finished stage reported finished or impossible (R9); closers mark closed first and wait (R5); every input hand-over is once-guarded and cannot block (R6); " +
-			"every channel that is closed has its sends and its close under one mutex with a marker test (R7); stage/state writes hold the step lock (R8). Shared: step goroutines are registered with the wait group before they start, so nothing is notified after Close/ForceClose returned (R10 = C05.R3).",
+			"every channel that is closed has its sends and its close under one mutex with a marker test (R7); stage/state writes hold the step lock (R8). Shared: step goroutines are registered with the wait group before they start, so nothing is notified after Close/ForceClose returned (R10 = C05.R3). No goroutine counted in a step's WaitGroup waits on that group (R14).",
 		notDecided: "real interleavings with the ATP client; the values of State()/CurrentStage() at arbitrary instants; feasibility of each explored path (the explorer over-approximates).",
 	})
 }
@@ -394,4 +394,52 @@ func c12R8(c *Ctx) {
 		}
 	}
 	c.minCount(rule, "stage/state stores", n, 15)
+}
+
+// C12.R14 a goroutine never waits for itself.
+// The goroutines of a step are counted in the step's WaitGroup, which Close/ForceClose wait for. Code that runs ON such a
+// goroutine (its body and everything it calls synchronously) must not wait on that group — directly or by calling the
+// step's own Close/ForceClose — or the goroutine blocks for ever, no completion is reported and every closer hangs.
+func c12R14(c *Ctx) {
+	const rule = "C12.R14"
+	c.explain("C12.R14 for every goroutine that defers WaitGroup.Done on a step's group: nothing reachable synchronously from its body calls Wait on that same group (closing the step from its own goroutine must use the internal, non-waiting close)")
+	g := c.CG()
+	n := 0
+	for _, fn := range c.RepoFns {
+		if c.excluded(fn) {
+			continue
+		}
+		eachInstr(fn, func(r instrRef) {
+			goI, ok := r.I.(*ssa.Go)
+			if !ok {
+				return
+			}
+			callees := g.Callees(goI)
+			if len(callees) != 1 {
+				return
+			}
+			body := callees[0]
+			done, has := deferredDone(body)
+			if !has || done.field == nil {
+				return
+			}
+			n++
+			key := fmt.Sprintf("no-self-wait:%s", c.fnName(body))
+			reach := g.reach([]*ssa.Function{body}, false, false)
+			var bad []string
+			for _, f := range c.sortedFns(reach) {
+				eachInstr(f, func(r2 instrRef) {
+					if _, isCall := r2.I.(*ssa.Call); !isCall {
+						return
+					}
+					if w, ok := wgCall(r2.I, "Wait"); ok && w.same(done) {
+						bad = append(bad, fmt.Sprintf("%s waits on %s at %s (call chain: %s)", c.fnName(f), done.String(), c.instrPos(r2.I), strings.Join(reach[f], " -> ")))
+					}
+				})
+			}
+			c.verdict(len(bad) == 0, rule, key, c.instrPos(goI), "nothing on this goroutine waits for the group it is counted in",
+				"a goroutine counted in the step's WaitGroup waits on that group itself: it can never finish, the step reports no completion and Close/ForceClose never return — "+strings.Join(bad, "; "))
+		})
+	}
+	c.minCount(rule, "goroutines counted in a step's WaitGroup", n, 3)
 }
